@@ -148,7 +148,7 @@ def _run(ctx):
     n_hist = 3 if ctx.tier == 'quick' else 8
     with tempfile.TemporaryDirectory(dir='/var/tmp') as td:
         for pi in range(n_pools):
-            pool = histories.Pool(ctx.rng, multi_dir=(pi % 2 == 1))
+            pool = histories.Pool(ctx.rng, multi_dir=(pi % 2 == 1), in_sampling=True if pi % 2 == 1 else None)
             table = histories.TermTable(ctx)
             lines, reals, opss = [], [], []
             for h in range(n_hist):
